@@ -41,12 +41,22 @@ def names_for(O, S, m, scheme="plain"):
         sn = {v: f"sp_{v}_x" for v in range(S.n)}
     elif scheme == "unnamed":
         sn = {v: f"s{v}" for v in range(S.n)}
+    elif scheme == "emptyindex":
+        # species names with an underscore and a backslash; the first object leaf of each species has an EMPTY index (its
+        # name ends with the separating underscore)
+        sn = {v: f"sp_{v}\\x" for v in range(S.n)}
     else:
         # backslashes next to digits, letters and - immediately followed by - an underscore
         sn = {v: f"sp\\{v}\\_a\\b" for v in range(S.n)}
     on = {}
+    first_in = {}
     for v in range(O.n):
-        if O.children[v]:
+        if not O.children[v]:
+            first_in.setdefault(m[v], v)
+    for v in range(O.n):
+        if scheme == "emptyindex" and not O.children[v]:
+            on[v] = f"{sn[m[v]]}_" + ("" if first_in[m[v]] == v else str(v))
+        elif O.children[v]:
             # "unnamed": ancestors of the object tree carry no name at all (legal through the API)
             on[v] = "" if scheme == "unnamed" else f"anc{v}"
         elif scheme == "backslash":
@@ -56,8 +66,9 @@ def names_for(O, S, m, scheme="plain"):
     return on, sn
 
 
-def build_rec(O, S, leafmap, m, lab=None, ordered_flag=True, scheme="plain", colours=None):
-    """-> (rec, onode, snode, onames, snames)"""
+def build_rec(O, S, leafmap, m, lab=None, ordered_flag=True, scheme="plain", colours=None, reverse_mapping=False):
+    """-> (rec, onode, snode, onames, snames); reverse_mapping: the object_species / syntenies dicts list the nodes bottom-up
+    (leaves first, as hand-written JSON files do) instead of top-down"""
     on, sn = names_for(O, S, m, scheme)
     onode = api_tree(O, on, colours)
     snode = api_tree(S, sn)
@@ -67,7 +78,8 @@ def build_rec(O, S, leafmap, m, lab=None, ordered_flag=True, scheme="plain", col
         node.dist = 2.0 + (v % 2)
     los = {onode[v]: snode[s] for v, s in leafmap.items()}
     lca = LowestCommonAncestor(snode[S.root])
-    mapping = {onode[v]: snode[s] for v, s in m.items()}
+    order = sorted(m, reverse=True) if reverse_mapping else list(m)
+    mapping = {onode[v]: snode[m[v]] for v in order}
     if lab is None:
         inp = ReconciliationInput(onode[O.root], lca, los)
         rec = ReconciliationOutput(inp, mapping)
@@ -75,7 +87,8 @@ def build_rec(O, S, leafmap, m, lab=None, ordered_flag=True, scheme="plain", col
         leafsyn = {onode[v]: list(lab[v]) for v in O.leaves}
         inp = SuperReconciliationInput(onode[O.root], lca, los, leaf_syntenies=leafsyn)
         rec = SuperReconciliationOutput(input=inp, object_species=mapping,
-                                        syntenies={onode[v]: list(x) for v, x in lab.items()}, ordered=ordered_flag)
+                                        syntenies={onode[v]: list(lab[v]) for v in (sorted(lab, reverse=True) if reverse_mapping else lab)},
+                                        ordered=ordered_flag)
     return rec, onode, snode, on, sn
 
 
